@@ -357,6 +357,35 @@ let run_sim ws =
             bugF1 = b1; bugF2 = b2; bugF3 = b3; bugF4 = b4 } in
   String.concat " | " (List.map obs_str (sim_exec b (nat_of_int fuel) ich cs))
 
+(* "conf": the same case syntax as "sim"; per init / command the verdict of Conf.conf_case: na, bad:<why>, or
+   ok:<sorted invocation multiset predicted by the pool scheduler> *)
+let cmsg_str = function
+  | CMInit m -> Printf.sprintf "I:%s" (ns m)
+  | CMHandler (m, i, v) -> Printf.sprintf "H:%s:%s:%s" (ns m) (ns i) (zs v)
+  | CMReplier (m, r, v) -> Printf.sprintf "P:%s:%s:%s" (ns m) (ns r) (zs v)
+  | CMSink (k, v) -> Printf.sprintf "S:%s:%s" (ns k) (zs v)
+  | CMSource (k, v) -> Printf.sprintf "B:%s:%s" (ns k) (zs v)
+let run_conf ws =
+  toks := ws; key_alias := [];
+  let _threads = next () in
+  let fuel = nint () in
+  let t0 = nz () in
+  let tol = nopt_z () in
+  let b1 = (nint () = 1) in let b2 = (nint () = 1) in let b3 = (nint () = 1) in let b4 = (nint () = 1) in
+  expect "M"; let ms = plist p_model in
+  expect "S"; let ss = plist (fun () -> let k = nint () in let c = nnat () in if k = 0 then SpecBuf c else SpecSlot) in
+  expect "E"; let es = plist (fun () -> plist p_conn) in
+  expect "K"; let ks = plist nopt_z in
+  expect "I"; let ich = plist nnat in
+  expect "C"; let cs = plist (fun () -> let c = p_cmd () in let ch = plist nnat in (c, ch)) in
+  let b = { bmodels = ms; bsinks = ss; bsources = es; bclock = ks; btol = tol; bt0 = t0;
+            bugF1 = b1; bugF2 = b2; bugF3 = b3; bugF4 = b4 } in
+  String.concat " | " (List.map (function
+    | CvNA -> "na"
+    | CvBad w -> "bad:" ^ ns w
+    | CvOk l -> "ok:" ^ String.concat " " (List.sort compare (List.map cmsg_str l)))
+    (conf_case b (nat_of_int fuel) ich cs))
+
 let run_case line =
   match words line with
   | "pq" :: ops ->
@@ -650,6 +679,7 @@ let run_case line =
       let show l = if l = [] then "-" else String.concat "." (List.map (fun n -> string_of_int (int_of_nat n)) l) in
       String.concat " " (List.map show (x_crw_run (List.map op_of ops)))
   | "sim" :: ws -> run_sim ws
+  | "conf" :: ws -> run_conf ws
   | "ebuf" :: cap :: o :: ops ->
       String.concat " " (List.map optz_str
         (x_ebuf_run (nat_of_int (ios cap)) (bool_of o) (List.map sink_op_of ops)))
